@@ -5,7 +5,7 @@ import ast
 
 from ..core import terms as T
 from ..core import asthelp as H
-from ..core.progdb import AnalysisError, lit
+from ..core.progdb import walk_no_nested, AnalysisError, lit
 from ..specs import comparators as CMP
 
 EXPLANATION = (
@@ -85,6 +85,7 @@ def run(db, chk, quad: bool = False) -> None:
         chk.ob("C03.O5-siblings-agree", f"both comparators order every tree-relevant pair the same way ({n} pairs)", not real, f"{NEW} / {OLD}", found=real[:4], accepted="same order (CLOSE/CLOSE and zero/zero pairs excepted)",
                why="the two builders must produce the same tree for the same thread")
     _builders(db, chk, new, old, OPEN_N, CLOSE_N, START_O, END_O)
+    _published_parent(db, chk, old)
     chk.floor("C03.O4-tie-rules", 12)
     chk.floor("C03.O3-strict-weak-order", 2)
     chk.floor("C03.R3-builder", 8)
@@ -107,6 +108,18 @@ def _loop_discipline(chk, mod, f, open_test_ok):
     if lp is None:
         chk.ob("C03.R3-builder", f"{mod.name}: one scan loop pushing on and popping from a stack", None, where, found="no such loop")
         return None
+    # every event of the thread reaches the scan: no exit in front of the loop that depends on HOW MANY events there are (other than "none")
+    for r_ in [n for n in walk_no_nested(f) if isinstance(n, ast.Return) and n.lineno < lp.lineno]:
+        guard = mod.parent.get(id(r_))
+        gtest = ast.unparse(guard.test) if isinstance(guard, ast.If) else "<unconditional>"
+        sizey = isinstance(guard, ast.If) and any((isinstance(x, ast.Call) and H.name_id(x.func) == "len") or (isinstance(x, ast.Attribute) and x.attr in ("empty", "shape", "size")) for x in ast.walk(guard.test))
+        if sizey:
+            empt = any(H.match(p_, guard.test) is not None for p_ in ("$d.empty", "len($d) == 0", "$d.shape[0] == 0", "not len($d)", "len($d) < 1", "$d.size == 0", "len($$d) == 0", "$$d.empty"))
+            verdict = True if empt else False
+        else:
+            verdict = True if gtest == "self.device_type == DeviceType.GPU" else None
+        chk.ob("C03.R3-builder", f"{mod.name}: early exit in front of the scan (`if {gtest}: return`) does not skip a thread that has events", verdict, mod.loc(r_), found=gtest,
+               accepted="device stacks (no call stack is built for a GPU stream) or an EMPTY event list", why="`len(df) < 2` returns before the single event of a one-event thread is added: it never appears in the tree")
     top = [s for s in lp.body if isinstance(s, ast.If)]
     if len(top) != 1 or len(lp.body) != 1:
         chk.ob("C03.R3-builder", f"{mod.name}: loop body is one open/close decision", None, where, found=[type(s).__name__ for s in lp.body], accepted="if <open>: ... else: ...")
@@ -225,3 +238,54 @@ def _builders(db, chk, new, old, OPEN_N, CLOSE_N, START_O, END_O):
     okdur = len(duro) == 1 and any(H.match(p_, duro[0]) is not None for p_ in ("$d['dur'] = np.maximum($d['dur'], 0)", "$d['dur'] = np.maximum(0, $d['dur'])", "$d['dur'] = $d['dur'].clip(lower=0)"))
     chk.ob("C03.R4-encoding", f"{OLD}: end = ts + max(dur, 0)", okend and okdur, old.loc(g), found=[ast.unparse(x) for x in duro + endo], accepted=["df['dur'] = np.maximum(df['dur'], 0)", "df['end'] = df['ts'] + df['dur']"])
     chk.ob("C03.R4-encoding", f"{OLD}: START/END constants differ", START_O != END_O, OLD, found=[START_O, END_O], accepted="distinct")
+
+
+def _published_parent(db, chk, old):
+    """CallGraph._construct_call_graph (builder behind critical-path analysis) publishes the parents into the frame: the stack parent for host
+    events, the launch call (correlation link) for DEVICE rows only."""
+    from ..core.specrun import run_spec
+    from ..core import terms as T
+    from ..core.values import Frame, to_term
+    rule = "C03.R6-published-parent"
+    f = old.func("CallGraph._construct_call_graph")
+    where = old.loc(f)
+    ups = [c for c in ast.walk(f) if isinstance(c, ast.Call) and isinstance(c.func, ast.Attribute) and c.func.attr == "update" and c.args]
+    link_updates = []
+    for c in ups:
+        arg = H.expand(f, c.args[0])
+        if isinstance(arg, ast.Call) and isinstance(arg.func, ast.Attribute) and arg.func.attr == "to_dict":
+            src = arg.func.value
+            if isinstance(src, ast.Name):
+                ds = H.defs_of(f, src.id)
+                src = ds[0] if len(ds) == 1 else src
+            m_ = H.match("$d[$$pred]['index_correlation']", src) or H.match("$d.loc[$$pred, 'index_correlation']", src) or H.match("$d.loc[$$pred]['index_correlation']", src)
+            if m_ is not None:
+                link_updates.append((c, m_["__mv_d"], m_["__mvx_pred"]))
+    if len(link_updates) != 1:
+        chk.ob(rule, "one overwrite of the parents map from the correlation links of selected rows", None, where, found=[ast.unparse(c)[:100] for c in ups])
+        return
+    c, dname, pred = link_updates[0]
+    srcf = f"def pred({dname}):\n    return {ast.unparse(pred)}\n"
+    DF = ("param", "DF")
+    runs = run_spec(db, srcf, "pred", lambda I: {dname: Frame(DF)})
+    t = to_term(runs[0].ret) if len(runs) == 1 else None
+    if t is None or T.has_opaque(t):
+        chk.ob(rule, "row selection of the link overwrite understood", None, where, found=ast.unparse(pred))
+        return
+    t = t[1] if isinstance(t, tuple) and t and t[0] == "ser" else t
+    tt, other = {}, None
+    for sv in (-1, 0, 7):
+        try:
+            tt[sv] = bool(T.evaluate(t, lambda leaf, sv=sv: sv if leaf == T.col(DF, "stream") else (_ for _ in ()).throw(T.Unknown(leaf))))
+        except T.Unknown as u:
+            other = T.show(u.args[0])[:80]
+            break
+    chk.ob(rule, "the parent is taken from the correlation link for device rows only (selection reads the stream alone: false on -1, true on every other stream)", other is None and tt == {-1: False, 0: True, 7: True}, where,
+           found={"predicate": ast.unparse(pred), "table": {str(k): v for k, v in tt.items()}, "also reads": other}, accepted="df['stream'].ne(-1)",
+           why="links are mutual: a host launch call has a positive index_correlation too, and its published parent would become its own kernel instead of the enclosing operator")
+    # the stack parents are published first and cover every node of every thread of the rank
+    first = [u for u in ups if u.lineno < c.lineno and any(isinstance(x, ast.DictComp) for x in ast.walk(u))]
+    okf = len(first) == 1 and any(H.match("{$k: $n.parent for $k, $n in $$it if $k >= 0}", x) is not None for x in ast.walk(first[0]) if isinstance(x, ast.DictComp))
+    chk.ob(rule, "host parents: every node id >= 0 of every stack of the rank maps to its stack parent, before the link overwrite", okf, where, found=[ast.unparse(u)[:140] for u in first],
+           accepted="parents.update({node_id: node.parent for node_id, node in stack.get_nodes().items() if node_id >= 0})")
+    chk.floor(rule, 2)
